@@ -45,6 +45,7 @@ type Ctx struct {
 	Rng    *rand.Rand
 	Res    *Result
 	Replay string // path of a replay file, when replaying
+	Faults bool   // inject message faults (duplicate request, dropped response)
 	seen   map[string]bool
 }
 
@@ -119,6 +120,7 @@ func main() {
 	n := flag.Int("n", 0, "number of cases (0 = tier default)")
 	out := flag.String("out", "", "output directory")
 	replay := flag.String("replay", "", "replay file")
+	faults := flag.Bool("faults", false, "inject message faults")
 	flag.Parse()
 	if flag.NArg() < 1 {
 		names := []string{}
@@ -141,7 +143,7 @@ func main() {
 	}
 	_ = os.MkdirAll(*out, 0o755)
 	res := &Result{Slice: name, Seed: *seed, Tier: *tier, Distribution: map[string]int{}, Samples: []interface{}{}, Violations: []Violation{}, CaseFiles: []string{}}
-	c := &Ctx{Seed: *seed, Tier: *tier, N: *n, Out: *out, Rng: rand.New(rand.NewSource(*seed)), Res: res, Replay: *replay, seen: map[string]bool{}}
+	c := &Ctx{Seed: *seed, Tier: *tier, N: *n, Out: *out, Rng: rand.New(rand.NewSource(*seed)), Res: res, Replay: *replay, Faults: *faults, seen: map[string]bool{}}
 	fn(c)
 	b, _ := json.MarshalIndent(res, "", " ")
 	if err := os.WriteFile(filepath.Join(*out, name+".json"), b, 0o644); err != nil {
